@@ -463,7 +463,7 @@ func TestC17PieceDownloader(t *testing.T) {
 	rep.Extra["pd_states_with_pipeline_slot_held_by_unrequested_block"] = leaks
 	rep.Extra["pd_states_done"] = doneStates
 	rep.Extra["pd_requests_sent_in_representatives"] = reqs
-	if doneStates == 0 || reqs == 0 {
+	if vs.empty() && (doneStates == 0 || reqs == 0) {
 		core.HarnessError("vacuous: no piece ever completed / no request sent")
 	}
 	vs.flush(rep)
